@@ -37,6 +37,12 @@ const AFFINE: [Kind; 5] = [Kind::HLNormalizer, Kind::Vsct, Kind::Cti, Kind::Net,
 const SCALE_INV: [Kind; 11] = [Kind::Rsi, Kind::MyRsi, Kind::LaguerreRsi, Kind::Vst, Kind::Roc, Kind::CenterOfGravity, Kind::BinaryEntropy, Kind::TrendFlex, Kind::ReFlex, Kind::LnReturn, Kind::Drawdown];
 const SCALE_EQ: [Kind; 11] = [Kind::Min, Kind::Max, Kind::Sma, Kind::Ema, Kind::Alma, Kind::Cumulative, Kind::WelfordOnline, Kind::LaguerreFilter, Kind::SuperSmoother, Kind::Roofing, Kind::CyberCycle];
 const NEGATES: [Kind; 8] = [Kind::HLNormalizer, Kind::Vsct, Kind::Vst, Kind::MyRsi, Kind::Cti, Kind::Net, Kind::TrendFlex, Kind::ReFlex];
+/// views whose documented computation forms sums, differences, comparisons and ratios of inputs but never
+/// a product of two of them (no squares, no cross terms)
+const PRODUCT_FREE: [Kind; 21] = [
+    Kind::HLNormalizer, Kind::Net, Kind::Eft, Kind::Rsi, Kind::MyRsi, Kind::LaguerreRsi, Kind::Roc, Kind::CenterOfGravity, Kind::BinaryEntropy, Kind::LnReturn, Kind::Drawdown,
+    Kind::Min, Kind::Max, Kind::Sma, Kind::Ema, Kind::Alma, Kind::Cumulative, Kind::LaguerreFilter, Kind::SuperSmoother, Kind::Roofing, Kind::CyberCycle,
+];
 /// views that only ever form differences / comparisons of inputs: bit-exact under dyadic offsets in f64
 const DIFF_ONLY: [Kind; 3] = [Kind::HLNormalizer, Kind::Net, Kind::Eft];
 
@@ -44,7 +50,12 @@ fn transforms(kind: Kind, exact: bool) -> Vec<Tr> {
     let mut v = vec![];
     // f64: powers of two only (bit-exact), including a very small and a very large unit so that
     // an absolute threshold or a hard-coded level anywhere in a view shows
-    let scales: Vec<f64> = if exact { vec![3.0, 1.0 / 3.0, 1.4] } else { vec![2.0, 0.5, 1024.0, 2f64.powi(-70), 2f64.powi(70)] };
+    let mut scales: Vec<f64> = if exact { vec![3.0, 1.0 / 3.0, 1.4] } else { vec![2.0, 0.5, 1024.0, 2f64.powi(-70), 2f64.powi(70)] };
+    // units so small / large that a *product* of two inputs under- or overflows although every input, sum,
+    // difference and ratio is a normal number: only for the views that never multiply two inputs
+    if !exact && PRODUCT_FREE.contains(&kind) {
+        scales.extend([2f64.powi(-600), 2f64.powi(600)]);
+    }
     if AFFINE.contains(&kind) {
         for a in &scales {
             v.push(Tr { a: *a, b: 0.0, rel: Rel::Same });
@@ -91,6 +102,9 @@ struct S<T: Scalar> {
     tainted: bool,
     /// every input so far was an integer
     ints: bool,
+    /// some output has entered the subnormal neighbourhood (|out| < 1e-300, non-zero): a recursion whose
+    /// state is subnormal no longer scales exactly, and the lost bits feed back
+    under: bool,
 }
 
 fn check<T: Scalar>(spec: &Spec, alpha: &[f64], depth: usize, st: &mut Stats, sink: &Sink) {
@@ -115,7 +129,7 @@ fn check_from<T: Scalar>(spec: &Spec, base: &[f64], alpha: &[f64], depth: usize,
             }
         })
         .collect();
-    let mut root = S { base: build::<T>(spec), img, tainted: T::inexact() > c0, ints: true };
+    let mut root = S { base: build::<T>(spec), img, tainted: T::inexact() > c0, ints: true, under: false };
     st.configs += 1;
     let k = spec.n + 1;
     let mut stepf = |s: &mut S<T>, hist: &[f64], st: &mut Stats| -> Step {
@@ -135,6 +149,12 @@ fn check_from<T: Scalar>(spec: &Spec, base: &[f64], alpha: &[f64], depth: usize,
                 s.tainted = true;
             }
             st.out(o.map(|v| v.f()));
+            if !T::EXACT {
+                let sub = |v: &Option<T>| v.map(|x| x.f() != 0.0 && x.f().abs() < 1e-300).unwrap_or(false);
+                if sub(&o) || outs.iter().any(sub) {
+                    s.under = true;
+                }
+            }
             // (only the last N+1 values matter for the flatness exclusions)
             let ht = to_t::<T>(&hist[hist.len().saturating_sub(k)..]);
             let flat = refs::is_flat(refs::window(&ht, k));
@@ -148,6 +168,9 @@ fn check_from<T: Scalar>(spec: &Spec, base: &[f64], alpha: &[f64], depth: usize,
                 }
                 if t.a < 0.0 && flat {
                     continue; // degenerate window: excluded by the statement for the sign clauses
+                }
+                if s.under && t.a > 0.0 && t.a != 1.0 {
+                    continue; // underflow: the scale relations are stated barring it
                 }
                 if t.b.abs() > 1e15 && !s.ints {
                     continue; // x + 2^52 is exact on integers only
@@ -175,7 +198,9 @@ fn check_from<T: Scalar>(spec: &Spec, base: &[f64], alpha: &[f64], depth: usize,
                     let tiny = |v: Option<T>| v.map(|x| x.f().abs() < 1e-290).unwrap_or(false);
                     opt_same(oi, want)
                         || matches!((oi, want), (Some(p), Some(q)) if p == q)
-                        || ((tiny(o) || tiny(oi) || tiny(want)) && matches!((oi, want), (Some(p), Some(q)) if (p.f() - q.f()).abs() <= 1e-9 * q.f().abs() + 1e-300))
+                        // (a subnormal carries fewer significant bits: one unit of the last subnormal place, seen
+                        // through the scale, is allowed on top of 1e-9 relative)
+                        || ((tiny(o) || tiny(oi) || tiny(want)) && matches!((oi, want), (Some(p), Some(q)) if (p.f() - q.f()).abs() <= 1e-9 * q.f().abs() + 1e-300 + 1e-323 * t.a.abs().max(1.0)))
                 };
                 if !ok {
                     sink.push(
